@@ -201,6 +201,10 @@ fn spawn_backend(be: MockBackend, stop: Arc<AtomicBool>) {
             if let Ok(mut c) = be.accept(Duration::from_millis(100)) {
                 let stop = stop.clone();
                 std::thread::spawn(move || {
+                    // once a `/hold` request was seen the connection is never answered again:
+                    // the end of a chunked request body ("0\r\n\r\n") arriving in a later read
+                    // must not be mistaken for a second, answerable request
+                    let mut holding = false;
                     while !stop.load(Ordering::Relaxed) {
                         match c.read_until(b"\r\n\r\n", Duration::from_millis(200)) {
                             ReadEnd::Closed | ReadEnd::Reset => return,
@@ -208,7 +212,8 @@ fn spawn_backend(be: MockBackend, stop: Arc<AtomicBool>) {
                             _ => {}
                         }
                         let req = c.take_received();
-                        if find(&req, b" /hold").is_some() {
+                        if holding || find(&req, b" /hold").is_some() {
+                            holding = true;
                             continue;
                         }
                         if c.write_all(b"HTTP/1.1 200 OK\r\nContent-Length: 2\r\n\r\nok", Duration::from_millis(500)).is_err() {
@@ -1128,14 +1133,33 @@ fn build_histories(seed: u64, thorough: bool) -> Vec<History> {
     out
 }
 
+/// The history model's premise is that sozu never ends a stream on its own (the
+/// backend holds every request). A response HEADERS frame from sozu (a 503/504
+/// default answer under load, say) breaks the premise: the case is re-run, and
+/// left undecided (tag `history:premise-broken`) when it keeps happening.
 fn run_history(bed: &Bed, h: &History, model: &[String]) -> Verdict {
+    let mut last = None;
+    for _ in 0..3 {
+        let (v, premise_broken) = run_history_once(bed, h, model);
+        if !premise_broken || v.fails.is_empty() {
+            return v;
+        }
+        last = Some(v);
+    }
+    let mut v = last.unwrap();
+    v.fails.clear();
+    v.tags.push("history:premise-broken".into());
+    v
+}
+
+fn run_history_once(bed: &Bed, h: &History, model: &[String]) -> (Verdict, bool) {
     let mut v = Verdict { fails: vec![], known: vec![], tags: vec![], observed: String::new() };
     let fail = |v: &mut Verdict, class: &str, detail: String| v.fails.push((class.to_string(), format!("{}: {detail}", h.name)));
     let mut c = match Client::connect(bed.front_limit2).and_then(|mut c| c.handshake().map(|_| c)) {
         Ok(c) => c,
         Err(e) => {
             fail(&mut v, "handshake-failed", e);
-            return v;
+            return (v, false);
         }
     };
     let mut seen = vec![];
@@ -1180,7 +1204,8 @@ fn run_history(bed: &Bed, h: &History, model: &[String]) -> Verdict {
         v.tags.push(format!("history:refused-id-reuse-{}", if reused { "accepted" } else { "refused" }));
     }
     v.observed = seen.join(" ");
-    v
+    let premise_broken = c.frames.iter().any(|f| f.ty == 1);
+    (v, premise_broken)
 }
 
 // ---------------------------------------------- receive-limits family ----
